@@ -196,10 +196,11 @@ class StateScanStep(_NoReplay):
     along the iteration axis and merged UNDER THE NAMESPACE PATH CURRENT AT THE SCAN (merging into, not
     replacing, namespaces that already exist); carry/outputs are those of the plain scan"""
 
-    cases = ["root", "inside_namespace", "body_namespace_already_exists", "body_namespace_depth2_already_exists", "two_saves_same_name_in_body"]
+    cases = ["root", "inside_namespace", "body_namespace_already_exists", "body_namespace_depth2_already_exists", "two_saves_same_name_in_body", "reverse_scan", "save_only_inside_nested_scan"]
 
     def call(self, case):
         self.case = case
+        self.rev = case == "reverse_scan"
         self.other = value("other")
         self.col = {"keep": self.other}
         stack = ["ns"] if case == "inside_namespace" else []
@@ -221,6 +222,17 @@ class StateScanStep(_NoReplay):
                      J.Eqn(site(st.namespace_pop_p), [], [], {}), J.Eqn(site(st.namespace_pop_p), [], [], {})]
         elif case == "two_saves_same_name_in_body":
             eqns += [J.Eqn(site(st.state_p, name="x"), [car], [o2], {}), tag]
+        elif case == "save_only_inside_nested_scan":
+            # the outer body's only tagging happens inside an inner scan (a kernel that loops over sub-moves)
+            ic, ix, io = J.Var("ic"), J.Var("ix"), J.Var("io")
+            inner = J.ClosedJaxpr(J.Jaxpr([], [ic, ix], [J.Eqn(site(st.state_p, name="x"), [ic], [io], {})], [io, io]), [])
+            self.T2 = fresh("T2", z3.IntSort())
+            engine().assume(self.T2 >= 1)
+            ifc, iys = J.Var("ifc"), J.Var("iys")
+            self.inner_xs = Tensor.fresh("inner_xs", (self.T2,), V)
+            ixs = J.Literal(self.inner_xs)
+            eqns += [J.Eqn(J.scan_p, [nc, ixs], [ifc, iys], {"jaxpr": inner, "length": Sym(self.T2), "reverse": False, "unroll": 1, "num_consts": 0, "num_carry": 1, "linear": None})]
+            o1 = ifc
         else:
             eqns += [tag]
         body = J.ClosedJaxpr(J.Jaxpr([], [cst, car, xv], eqns, [o1, o1]), [])
@@ -229,7 +241,7 @@ class StateScanStep(_NoReplay):
         k, c0, xs, fc, ys = (J.Var(n) for n in ("k", "c0", "xs", "fc", "ys"))
         self.vk, self.vc0 = value("const"), value("carry0")
         self.vxs = Tensor.fresh("xs", (self.T,), V)
-        params = {"jaxpr": body, "length": Sym(self.T), "reverse": False, "unroll": 1, "num_consts": 1, "num_carry": 1, "linear": None}
+        params = {"jaxpr": body, "length": Sym(self.T), "reverse": self.rev, "unroll": 1, "num_consts": 1, "num_carry": 1, "linear": None}
         return self.real(run, self.it, [J.Eqn(J.scan_p, [k, c0, xs], [fc, ys], params)], [k, c0, xs], [fc, ys], [self.vk, self.vc0, self.vxs])
 
     def ensures(self, case, path):
@@ -237,11 +249,20 @@ class StateScanStep(_NoReplay):
         if path.outcome != "return":
             return
         scans = path.extra.get("scans", [])
+        if case == "save_only_inside_nested_scan":
+            st_x = self.col.get("x")
+            yield "values_saved_inside_a_nested_scan_are_collected", isinstance(st_x, Tensor)
+            if isinstance(st_x, Tensor):
+                yield "stacked_along_both_iteration_axes", st_x.ndim == 2 and z3.eq(_lift(st_x.shape[0]), self.T) and z3.eq(_lift(st_x.shape[1]), self.T2)
+            yield "rest_of_dictionary_untouched", self.col.get("keep") is self.other
+            return
         yield "one_scan_with_the_original_length", len(scans) == 1 and z3.eq(scans[0]["T"], self.T)
         if len(scans) != 1:
             return
         rec = scans[0]
         t = rec["t"]
+        yield "scan_direction_preserved", bool(rec["reverse"]) == self.rev
+        pos = (self.T - 1 - t) if self.rev else t  # where the original scan stacks what iteration t produced
         from vt.gfi import enc
 
         carry_t = rec["carry_at"](t)
@@ -265,7 +286,7 @@ class StateScanStep(_NoReplay):
         if isinstance(stacked, Tensor):
             new_carry = rec["new_carry"]
             # iteration t's saved value is the value computed in iteration t (= the new carry here)
-            yield "lane_t_is_the_value_saved_in_iteration_t", same(Sym(stacked.fn((t,))), new_carry[0])
+            yield "lane_t_is_the_value_saved_in_iteration_t", same(Sym(stacked.fn((pos,))), new_carry[0])
         yield "rest_of_dictionary_untouched", self.col.get("keep") is self.other
         yield "scan_primitive_not_rebound", len(J.scan_p.binds) == 0
 
